@@ -23,11 +23,11 @@ is resolved after the global and include layers; command env = global env, then 
 dotenv (first file wins), then task env; process environment wins unless the experiment. -/
 theorem C10_layers :
     TaskModel.Gen.VarLayers.order =
-      [("c.TaskfileEnv", "rangeFunc"), ("c.TaskfileVars", "rangeFunc"), ("t.IncludeVars", "rangeFunc"),
-       ("t.IncludedTaskfileVars", "taskRangeFunc"), ("call.Vars", "rangeFunc"), ("t.Vars", "taskRangeFunc")] ∧
+      [("Compiler.TaskfileEnv", "root"), ("Compiler.TaskfileVars", "root"), ("ast.Task.IncludeVars", "root"),
+       ("ast.Task.IncludedTaskfileVars", "task"), ("Call.Vars", "root"), ("ast.Task.Vars", "task")] ∧
     TaskModel.Gen.VarLayers.marks =
-      ["osEnviron", "special", "loop:c.TaskfileEnv", "loop:c.TaskfileVars", "loop:t.IncludeVars", "taskDirResolved",
-       "loop:t.IncludedTaskfileVars", "returnIfNoTaskOrCall", "loop:call.Vars", "loop:t.Vars"] ∧
+      ["osEnviron", "special", "loop:Compiler.TaskfileEnv", "loop:Compiler.TaskfileVars", "loop:ast.Task.IncludeVars", "taskDirResolved",
+       "loop:ast.Task.IncludedTaskfileVars", "returnIfNoTaskOrCall", "loop:Call.Vars", "loop:ast.Task.Vars"] ∧
     TaskModel.Gen.VarLayers.envMerges = ["e.Taskfile.Env", "dotenvEnvs", "origTask.Env"] ∧
     TaskModel.Gen.VarLayers.firstDotenvWins = true ∧
     TaskModel.Gen.VarLayers.appendsToOsEnviron = true ∧
@@ -41,7 +41,7 @@ theorem C10_included_layer_is_included_files_vars : TaskModel.Gen.Load.mergePass
 
 /-- the model's layer order and task-dir flags are that order -/
 theorem docOrder_matches :
-    docOrder.map (fun s => s.inTaskDir) = TaskModel.Gen.VarLayers.order.map (fun p => p.2 == "taskRangeFunc") := by decide
+    docOrder.map (fun s => s.inTaskDir) = TaskModel.Gen.VarLayers.order.map (fun p => p.2 == "task") := by decide
 
 /-- **Highest-priority definition wins, evaluated over lower priorities.** If the last
 definition of `m` in processing order is `d` (in layer `L`, after the definitions `dpre` of
